@@ -7,6 +7,7 @@ import enum
 from dataclasses import dataclass, field
 from datetime import datetime
 from typing_extensions import List, Set, Sequence, Optional, Type
+from krrood.class_diagrams.utils import Role
 
 
 class Color(enum.Enum):
@@ -23,7 +24,7 @@ SUFFIX = {"K1": "a", "K2": "b", "K3": "c"}
 
 
 def model_id(m):
-    return hashlib.sha1(json.dumps([m["b2"], m["b3"], m["f1"], m["f2"], m["f3"], bool(m.get("u2")), bool(m.get("u3"))],
+    return hashlib.sha1(json.dumps([m["b2"], m["b3"], m["f1"], m["f2"], m["f3"], bool(m.get("u2")), bool(m.get("u3")), bool(m.get("role"))],
                                    sort_keys=True).encode()).hexdigest()[:10]
 
 
@@ -72,9 +73,15 @@ def source(m, future=True):
             base_name = f"U{c[1]}_{mid}"
         else:
             base_name = cname(base, mid) if base != "-" else None
+        is_role = c == "K3" and m.get("role")
+        if is_role:
+            base_name = f"Role[{cname('K1', mid)}]"
         out.append("@dataclass(eq=False)\n")
         out.append(f"class {cname(c, mid)}" + (f"({base_name})" if base_name else "") + ":\n")
-        if not fields:
+        if is_role:
+            q = (lambda n: n) if future else (lambda n: f'"{n}"')
+            out.append(f"    rtc: {q(cname('K1', mid))}\n    rec: {q(cname('K2', mid))}\n")
+        elif not fields:
             out.append("    pass\n")
         for i, f in enumerate(fields, 1):
             ann, default = ann_of(f, mid)
@@ -89,6 +96,7 @@ import enum
 from dataclasses import dataclass, field
 from datetime import datetime
 from typing_extensions import List, Set, Sequence, Optional, Type, TYPE_CHECKING
+from krrood.class_diagrams.utils import Role
 from cmcommon import Color, Outside
 '''
 
@@ -116,7 +124,11 @@ def source_split(m):
         out = [SPLIT_HEADER]
         if base != "-":
             out.append(f"from cms_{mid}_{base} import {cname(base, mid)}\n")
-        refs = sorted({f["t"] for f in fields if f["t"] != "-" and f["t"] != c and f["t"] != base})
+        is_role = c == "K3" and m.get("role")
+        if is_role:
+            out.append(f"from cms_{mid}_K1 import {cname('K1', mid)}\n")      # the type argument of Role[...] is needed at class creation
+        refs = sorted(({f["t"] for f in fields if f["t"] != "-" and f["t"] != c and f["t"] != base} | ({"K2"} if is_role else set()))
+                      - ({"K1"} if is_role else set()))
         if refs:
             out.append("if TYPE_CHECKING:\n")
             for t in refs:
@@ -126,9 +138,13 @@ def source_split(m):
             base_name = f"U{c[1]}_{mid}"
         else:
             base_name = cname(base, mid) if base != "-" else None
+        if is_role:
+            base_name = f"Role[{cname('K1', mid)}]"
         out.append("\n\n@dataclass(eq=False)\n")
         out.append(f"class {cname(c, mid)}" + (f"({base_name})" if base_name else "") + ":\n")
-        if not fields:
+        if is_role:
+            out.append(f"    rtc: {cname('K1', mid)}\n    rec: {cname('K2', mid)}\n")
+        elif not fields:
             out.append("    pass\n")
         for i, f in enumerate(fields, 1):
             ann, default = annotation(f, mid)
